@@ -44,6 +44,7 @@ type debSUT struct {
 	pushes   []pushRec // debounced path, in call order
 	bypass   []pushRec
 	sends    []factSet // facts of every request sent on the debounced path, in order
+	sendPush []*model.PushContext // ... and the snapshot each of them carried (nil = none)
 	allSent  factSet
 	nsend    int
 	stuck    bool
@@ -83,6 +84,7 @@ func (s *debSUT) micros() int64 { return time.Since(s.t0).Microseconds() }
 type pushRec struct {
 	req   *model.PushRequest
 	facts factSet
+	push  *model.PushContext // the snapshot the request carried when pushFn was entered
 }
 
 // patience: how long a wait-for-condition may take.  Generous (a healthy loop needs milliseconds)
@@ -116,7 +118,7 @@ func (s *debSUT) isBypass(r *model.PushRequest) bool {
 
 func (s *debSUT) pushFn(req *model.PushRequest) {
 	s.mu.Lock()
-	rec := pushRec{req: req, facts: reqFacts(req)}
+	rec := pushRec{req: req, facts: reqFacts(req), push: req.Push}
 	if s.isBypass(req) {
 		s.bypass = append(s.bypass, rec)
 		s.trace = append(s.trace, "E|"+s.viewCanon(req))
@@ -175,12 +177,15 @@ type debResult struct {
 	quiescent bool
 	single    bool
 	batches   bool
+	newest    bool // every debounced push carries the newest snapshot of the updates merged into it
 	unmutated bool
 	detail    string
 }
 
 // segmentable: can the debounced pushes, in order, be read as merges of consecutive runs of the sends?
-func segmentable(pushes []pushRec, sends []factSet) bool {
+// With snaps != nil a run only counts if the pushed request also carries the newest snapshot of the
+// run: the last non-nil Push among its members, in order (nil if none had one).
+func segmentable(pushes []pushRec, sends []factSet, snaps []*model.PushContext) bool {
 	// reach[j] = pushes[0..i) can cover sends[0..j)
 	reach := make([]bool, len(sends)+1)
 	reach[0] = true
@@ -191,9 +196,13 @@ func segmentable(pushes []pushRec, sends []factSet) bool {
 				continue
 			}
 			u := sets.New[string]()
+			var newest *model.PushContext
 			for k := j; k < len(sends); k++ {
 				u.Merge(sends[k])
-				if u.Equals(p.facts) {
+				if snaps != nil && snaps[k] != nil {
+					newest = snaps[k]
+				}
+				if u.Equals(p.facts) && (snaps == nil || p.push == newest) {
 					next[k+1] = true
 				}
 			}
@@ -238,7 +247,8 @@ func (s *debSUT) finish() debResult {
 		}
 	}
 	res.single = s.maxIn <= 1
-	res.batches = segmentable(s.pushes, s.sends)
+	res.batches = segmentable(s.pushes, s.sends, nil)
+	res.newest = !res.batches || segmentable(s.pushes, s.sends, s.sendPush)
 	if s.stuck {
 		res.quiescent = false
 	}
@@ -278,6 +288,7 @@ func (s *debSUT) apply(f []string) (out string) {
 		s.allSent.Merge(reqFacts(r))
 		if !s.isBypass(r) {
 			s.sends = append(s.sends, reqFacts(r))
+			s.sendPush = append(s.sendPush, r.Push)
 		}
 		s.mu.Unlock()
 		select {
@@ -485,6 +496,8 @@ func (s *debSUT) verdictOf(r debResult) (clause, detail string) {
 		return "two-debounced-pushes-in-flight", ""
 	case !r.batches:
 		return "push-is-not-a-merge-of-consecutive-updates", ""
+	case !r.newest:
+		return "debounced-push-does-not-carry-the-newest-snapshot-of-its-batch", ""
 	case !r.unmutated:
 		return "request-written-after-hand-off", r.detail
 	}
